@@ -2,8 +2,13 @@
    linked as ordinary objects.  vg_decompress() drives parse / retrieve / decode / emit sequentially the way
    expand.c does, re-stating the three checks that live in expand.c (declared block size, block CRC, end of file
    inside the zero padding of the last input word). */
-#include "decode.c"
+#include <stdlib.h>
+#include <string.h>
 #include "glue.h"
+/* decode.c releases what it got from xmalloc() with free(): route those to the glue's pool-aware release */
+#define free(p) vg_free(p)
+#include "decode.c"
+#undef free
 
 #include <arpa/inet.h>
 #include <stdlib.h>
@@ -67,6 +72,8 @@ vg_decompress(const uint8_t *in, size_t n, const uint32_t *in_steps, size_t n_in
   int rv, result;
   uint8_t *ebuf = NULL;
   size_t ebuf_cap = 0;
+  uint32_t *curbuf = NULL;
+  size_t curbase = 0;
 
   memset(st, 0, sizeof(*st));
   *out = NULL;
@@ -86,10 +93,14 @@ vg_decompress(const uint8_t *in, size_t n, const uint32_t *in_steps, size_t n_in
   bs.live = 0;
   bs.buff = 0;
   bs.block = NULL;
-  bs.data = words;
-  bs.limit = words;
+  bs.data = NULL;
+  bs.limit = NULL;
   bs.eof = (nwords == 0);
 
+  /* Every delivery is a separate heap buffer of exactly the delivered size, like the input blocks of the real
+     program: reading one word past bs.limit is then a heap-buffer-overflow that ASan reports, not a harmless look
+     at data that merely has not been handed over yet.  A new buffer is only attached when the previous one is used
+     up (that is when parse() / retrieve() return MORE). */
 #define DELIVER()                                                       \
   do {                                                                  \
     size_t step = n_in_steps ? in_steps[si++ % n_in_steps] : nwords;    \
@@ -97,8 +108,15 @@ vg_decompress(const uint8_t *in, size_t n, const uint32_t *in_steps, size_t n_in
       step = 1;                                                         \
     if (step > nwords - delivered)                                      \
       step = nwords - delivered;                                        \
+    if (bs.data != bs.limit)                                            \
+      abort();                                                          \
+    free(curbuf);                                                       \
+    curbuf = malloc(step * 4 ? step * 4 : 1);                           \
+    memcpy(curbuf, words + delivered, step * 4);                        \
+    curbase = delivered;                                                \
     delivered += step;                                                  \
-    bs.limit = words + delivered;                                       \
+    bs.data = curbuf;                                                   \
+    bs.limit = curbuf + step;                                           \
     if (delivered == nwords)                                            \
       bs.eof = 1;                                                       \
   } while (0)
@@ -114,7 +132,7 @@ vg_decompress(const uint8_t *in, size_t n, const uint32_t *in_steps, size_t n_in
     }
     if (rv == FINISH) {
       /* expand.c:425-436: EOF reached inside the zero padding? */
-      size_t off = (size_t)(bs.data - words);
+      size_t off = curbase + (size_t)(bs.data - curbuf);
       unsigned live = bs.live + garbage;
 
       if (live >= 32) {
@@ -165,7 +183,7 @@ vg_decompress(const uint8_t *in, size_t n, const uint32_t *in_steps, size_t n_in
 
           if (want == 0)
             want = 1;
-          if (want > ebuf_cap) {
+          if (want != ebuf_cap) {
             free(ebuf);
             ebuf = malloc(want);
             ebuf_cap = want;
@@ -192,6 +210,7 @@ vg_decompress(const uint8_t *in, size_t n, const uint32_t *in_steps, size_t n_in
     }
   }
   free(ebuf);
+  free(curbuf);
   free(words);
   *out = ob.p;
   *outlen = ob.len;
